@@ -83,8 +83,9 @@ def fn_body(src, name):
 EXPECTED_LEXERS = ["lex_regexish", "lex_punctuation", "lex_tabs", "lex_spaces", "lex_newlines", "lex_plural_digit",
                    "lex_hex_number", "lex_long_decade", "lex_number", "lex_url", "lex_email_address",
                    "lex_hostname_token", "lex_word", "lex_catch"]
-EXPECTED_PASSES = ["condense_spaces", "condense_newlines", "newlines_to_breaks", "condense_contractions",
-                   "condense_dotted_initialisms", "condense_number_suffixes", "condense_ellipsis", "condense_latin",
+# dcfd71f: condense_number_suffixes runs before condense_contractions (Number.doc_tokens follows this order)
+EXPECTED_PASSES = ["condense_spaces", "condense_newlines", "newlines_to_breaks", "condense_number_suffixes",
+                   "condense_contractions", "condense_dotted_initialisms", "condense_ellipsis", "condense_latin",
                    "match_quotes", "articles_imply_nouns"]
 
 
@@ -117,9 +118,20 @@ def lexer_tables(repo):
     if not m:
         raise ValueError("lex_number: the bound on the candidate is not recognised")
     floats = [char_lit(t) for t in re.findall(CHAR_RE, m.group(1))]
-    for needle in ["if !source[0].is_numeric() {", "s.parse::<f64>()", "s.pop()", "next_index: s.len(),", "let mut s: String = source[0..end + 1].iter().collect();"]:
+    # b5c1992: only a FINITE parse is accepted (Number.longest_float: parses_f64 && finite_f64)
+    for needle in ["if !source[0].is_numeric() {", "if let Some(n) = s.parse::<f64>().ok().filter(|n| n.is_finite()) {", "s.pop()", "next_index: s.len(),", "let mut s: String = source[0..end + 1].iter().collect();"]:
         if needle not in b:
             raise ValueError("lex_number: expected %r" % needle)
+    if len(re.findall(r"parse::<f64>", b)) != 1:
+        raise ValueError("lex_number: more than one f64 parse")
+    # 7202fd4: lex_plural_digit tests its first character with is_ascii_alphanumeric and the look-ahead behind
+    # the `s` with char::is_alphanumeric (Number.lex_plural_digit: is_ascii_alnum c0 / u_alnum U x)
+    pd = re.sub(r"\s+", " ", strip_comments(fn_body(lex_src, "lex_plural_digit")))
+    for needle in ["if src.is_empty() || !src[i].is_ascii_alphanumeric() { return None; }",
+                   "if l > i && src[i] == '\\'' { i += 1; }",
+                   "if l > i && src[i] == 's' { i += 1; if l == i || !src[i].is_alphanumeric() { return Some(FoundToken { token: TokenKind::Word(None), next_index: i, }); } } None"]:
+        if needle not in pd:
+            raise ValueError("lex_plural_digit: expected %r" % needle)
     if not re.search(r"'A'\.\.='Z' \| 'a'\.\.='z' \| '0'\.\.='9' \| '-'", fn_body(host_src, "lex_hostname")):
         raise ValueError("lex_hostname character class changed")
     b = fn_body(lex_src, "lex_token")
